@@ -45,6 +45,7 @@ type nodeViol struct {
 	Step   int    `json:"step"`
 	Reader int    `json:"reader"`
 	Writer int    `json:"writer"`
+	LastOp string `json:"last_op"` // the operation that made the latest completed write of the key
 }
 
 // intendedCategory: the class the shipped configuration means the key to have — the longest matching prefix over the three
@@ -158,6 +159,8 @@ func runNodes(c caseIn) *nodesOut {
 		}
 		latestM[slotKey{-9, k}], writerM[slotKey{-9, k}] = init, -2
 	}
+	lastOp := map[slotKey]string{}
+	dropped := map[slotKey]bool{} // a cache copy of the key was lost since its latest write
 	getLatest := func(node, k int) (string, int) {
 		sl := slot(node, k)
 		if v, ok := latestM[sl]; ok {
@@ -172,6 +175,33 @@ func runNodes(c caseIn) *nodesOut {
 			h = hs[st.Node]
 		} else {
 			h, _ = mk()
+		}
+		if st.Op.Op == "dropc" || st.Op.Op == "dropall" {
+			// "cache entry lost": TTL expiry / eviction / restart of a cache tier.  dropc: the copy in this node's local cache and in the
+			// shared cache; dropall: in every node's local cache and in the shared cache.  The persistent tier is never touched.
+			k, key := st.Op.K, c.Keys[st.Op.K]
+			for i := range ls {
+				if st.Op.Op == "dropall" || i == st.Node {
+					ls[i].Delete(key)
+				}
+			}
+			if sharedU != nil {
+				sharedU.Delete(key)
+			}
+			twoTier := c.Pers && (out.Intend[k] == 1 || out.Intend[k] == 3)
+			if twoTier {
+				dropped[slotKey{-9, k}] = true // nothing may change: the persistent tier holds the value
+			} else if crossVisible(k) { // shared class, cache only: the shared copy was the value
+				latestM[slotKey{-9, k}], writerM[slotKey{-9, k}] = "none", -2
+			} else {
+				for i := range ls {
+					if st.Op.Op == "dropall" || i == st.Node {
+						latestM[slotKey{i, k}], writerM[slotKey{i, k}] = "none", -2
+					}
+				}
+			}
+			out.Results = append(out.Results, []any{0})
+			continue
 		}
 		before := runtime.NumGoroutine()
 		res := doOp(h, c.Keys, st.Op)
@@ -188,6 +218,13 @@ func runNodes(c caseIn) *nodesOut {
 		k := st.Op.K
 		code := int(toInt(res[0]))
 		switch st.Op.Op {
+		case "set", "del", "setnx", "append", "remove", "incr":
+			if code == 0 || code == 5 || (code == 4 && res[1] == true) {
+				delete(dropped, slot(st.Node, k))
+				lastOp[slot(st.Node, k)] = st.Op.Op
+			}
+		}
+		switch st.Op.Op {
 		case "set":
 			if code == 0 {
 				v := []any{0, st.Op.V}
@@ -203,6 +240,10 @@ func runNodes(c caseIn) *nodesOut {
 		case "setnx":
 			if code == 4 && res[1] == true {
 				latestM[slot(st.Node, k)], writerM[slot(st.Node, k)] = canon([]any{0, st.Op.V}), st.Node
+			}
+		case "incr":
+			if code == 5 {
+				latestM[slot(st.Node, k)], writerM[slot(st.Node, k)] = canon([]any{2, int(toInt(res[1]))}), st.Node
 			}
 		case "append", "remove":
 			if code == 0 {
@@ -248,7 +289,12 @@ func runNodes(c caseIn) *nodesOut {
 				if st.Node >= 0 {
 					who = fmt.Sprintf("node %d", st.Node)
 				}
-				out.Viol = append(out.Viol, nodeViol{Kind: "cross-node-stale-read", K: k, Step: si, Reader: st.Node, Writer: wr,
+				kind := "cross-node-stale-read"
+				if dropped[slot(st.Node, k)] {
+					kind = "lost-after-cache-drop"
+					who += ", after the cache copy of the key was lost (expiry / eviction / cache restart)"
+				}
+				out.Viol = append(out.Viol, nodeViol{Kind: kind, K: k, Step: si, Reader: st.Node, Writer: wr, LastOp: lastOp[slot(st.Node, k)],
 					Msg: fmt.Sprintf("step %d: %s of %q from %s returned %s, but the latest completed write (by node %d) is %s", si, st.Op.Op, c.Keys[k], who, obs, wr, lat)})
 			}
 		}
